@@ -55,6 +55,7 @@ var c12Keys = []interface{}{
 	align.PropertyType, properties.Skipable, rune('1'), "a", "b", "c",
 	// a key of every other comparable kind, alone and inside structs and arrays: anything Go can compare is a key
 	complex128(1), complex64(1), float32(1), uintptr(1), int8(1), int16(1), int32(2), uint16(1), uint32(1), uint64(1),
+	(*c12MarkA)(nil), (*c12MarkB)(nil), (chan int)(nil), unsafe.Pointer(nil), (*int)(nil), // typed nils are keys like any other: distinct by type
 	c12Chan, (<-chan int)(c12Chan), unsafe.Pointer(c12ArrV), c12WithChan{"job", c12Done}, [2]complex128{1, 1}, c12Boxed{1}, c12Boxed{"1"}, [1]interface{}{int8(1)},
 }
 
@@ -72,8 +73,12 @@ var (
 
 // c12KeyName prints a key without any address in it.
 func c12KeyName(k interface{}) string {
-	switch k.(type) {
-	case chan int, <-chan int, unsafe.Pointer, c12WithChan:
+	switch x := k.(type) {
+	case chan int:
+		return fmt.Sprintf("%T(nil=%v)", k, x == nil)
+	case unsafe.Pointer:
+		return fmt.Sprintf("%T(nil=%v)", k, x == nil)
+	case <-chan int, c12WithChan:
 		return fmt.Sprintf("%T(one fixed value)", k)
 	}
 	return fmt.Sprintf("%T(%v)", k, k)
@@ -169,6 +174,9 @@ func c12SameValue(a, b interface{}) bool {
 	case reflect.Func:
 		fa, ok1 := a.(func() int)
 		fb, ok2 := b.(func() int)
+		if ok1 && ok2 && (fa == nil || fb == nil) {
+			return fa == nil && fb == nil
+		}
 		return ok1 && ok2 && fa() == fb()
 	case reflect.Ptr, reflect.Map, reflect.Chan:
 		return va.Pointer() == vb.Pointer()
@@ -187,14 +195,26 @@ func c12Describe(v interface{}) string {
 	}
 	switch x := v.(type) {
 	case func() int:
+		if x == nil {
+			return "a nil func() int"
+		}
 		return fmt.Sprintf("func() int returning %d (one of many closures of the same literal / method values of the same method)", x())
 	case *c12KS:
+		if x == nil {
+			return "a nil *c12KS"
+		}
 		return fmt.Sprintf("a pointer of its own to %#v", *x)
 	case *c12Recv:
+		if x == nil {
+			return "a nil *c12Recv"
+		}
 		return fmt.Sprintf("a pointer of its own to %#v", *x)
 	case map[string]int:
 		return fmt.Sprintf("a map of its own %v", x)
 	case chan int:
+		if x == nil {
+			return "a nil chan int"
+		}
 		return "a channel of its own"
 	}
 	return fmt.Sprintf("%#v", v)
@@ -203,7 +223,10 @@ func c12Describe(v interface{}) string {
 func (s *c12State) value() interface{} {
 	r := s.r
 	s.serial++
-	switch r.Intn(14) {
+	switch r.Intn(15) {
+	case 14:
+		// typed nils: a value like any other (only the untyped nil removes a key)
+		return gen.Pick(r, []interface{}{(*c12KS)(nil), []string(nil), map[string]int(nil), (func() int)(nil), (chan int)(nil), (*c12Recv)(nil)})
 	case 9:
 		return c12Closure(s.serial)
 	case 10:
